@@ -196,6 +196,21 @@ func c12ByteAlphabet(tier string) []vEvent {
 	return out
 }
 
+// c12SiblingAlphabet: several directories at the same depth, each with children whose names sort before, between and
+// after those of the others (what an earlier directory leaves behind at a depth must not matter to the next one).
+func c12SiblingAlphabet(tier string) []vEvent {
+	var out []vEvent
+	for _, p := range []string{"a", "a/m", "a/m/q", "a/z", "b", "b/c", "b/m", "b/m/a", "c", "c/d"} {
+		for k := 0; k < 5; k++ {
+			if (k == 3 || k == 4) && strings.Count(p, "/") == 2 {
+				continue
+			}
+			out = append(out, vEvent{Kind: k, Path: p})
+		}
+	}
+	return out
+}
+
 // c12PrefixAlphabet: entries below a directory that was never sent and whose name extends (as a string) the name
 // of a directory that was.
 func c12PrefixAlphabet(tier string) []vEvent {
@@ -336,7 +351,7 @@ func runC12(r *evid.Run) {
 	r.Sample(map[string]any{"order_pair": []string{"a-b", "a/b"}, "real": fsutil.ComparePath("a-b", "a/b"), "spec": fsmodel.ComparePaths("a-b", "a/b")})
 
 	// ---- part 2: validator, product BFS to closure ----
-	for pass, events := range [][]vEvent{c12Alphabet(r.Tier), c12DeepAlphabet(r.Tier), c12DotAlphabet(r.Tier), c12PrefixAlphabet(r.Tier), c12ByteAlphabet(r.Tier)} {
+	for pass, events := range [][]vEvent{c12Alphabet(r.Tier), c12DeepAlphabet(r.Tier), c12DotAlphabet(r.Tier), c12PrefixAlphabet(r.Tier), c12ByteAlphabet(r.Tier), c12SiblingAlphabet(r.Tier)} {
 		type item struct{ hist []vEvent }
 		seen := map[string]bool{}
 		frontier := []item{{}}
